@@ -193,6 +193,12 @@ func (st *State) heap(key, sort string) string {
 		if ax := theSorts.heapInitAxiom(key, n); ax != "" {
 			st.assume(ax)
 		}
+		if st.top != "top_0" && st.top != "" && st.top != "0" {
+			// first use after allocations happened: cells created since entry are well-typed too
+			if ax := theSorts.heapTypeAxiom(key, n, st.top); ax != "" {
+				st.assume(ax)
+			}
+		}
 	}
 	return n
 }
